@@ -54,7 +54,7 @@ func (w *World) adversarialKeys(call *Call) {
 	if !isBatchKeyed(call.Method) {
 		return
 	}
-	ai := len(call.Args) - 1
+	ai := payloadIndex(call.Args)
 	ka := call.Args[ai]
 	var kt reflect.Type
 	if ka.Kind() == reflect.Map {
